@@ -62,8 +62,8 @@ CHECKS["C08"] = dict(
     text="Order of evaluation is the specification's for every host construct; every program gives identical events/value in 16 (64) repetitions in each of 3 (8) processes, with and without re-parsing.",
     note=_EVN + " Reproducibility of a Go map-order bug is probabilistic: survival probability 2^-(N-1) per 2-way choice.", design="§5 C08")
 CHECKS["C12"] = dict(
-    technique=_EV + "nine conditional constructs x condition-value pool validated against PanEval's single Truthy operator by TLC, plus TLC check of the law Agree (PanTruth) on the decision table recorded for the whole pool incl. typed descendants and user-defined B",
-    text="All constructs decide like the value's B property for every pool value; exactly one branch / at most one evaluation of the right operand; deciding operand returned (validated through PanEval where modelled).",
+    technique=_EV + "eleven conditional constructs (incl. double negation) x condition-value pool validated against PanEval's single Truthy operator by TLC, plus TLC check of the law Agree (PanTruth) on the decision table recorded for the whole pool incl. typed descendants and user-defined B",
+    text="All constructs decide like the value's B property for every pool value; exactly one branch / at most one evaluation of the right operand; deciding operand returned (validated through PanEval where modelled); chains of three and four operands incl. a raising operand.",
     note=_EVN, design="§5 C12")
 CHECKS["C15"] = dict(
     technique=_EV + "every body of n statements over the defer/exit alphabet in five calling contexts; recorded runs validated against PanEval by TLC (trace validation)",
